@@ -75,7 +75,10 @@ def run(prog: Program, L: Ledger) -> None:
     add = mc.methods.get("add_move")
     if not (ym and step and add):
         raise AnalysisError("MonteCarlo.yield_moves/step/add_move anchor missing")
-    ym, step, add = flat(prog, ym, mc), flat(prog, step, mc), flat(prog, add, mc)
+    # helpers of the scheduler are seen through even when they are public (a `due_moves()` shared by add_move and
+    # yield_moves); the trial's own anchors stay calls
+    KEEP = ("save_state", "revert_state", "validate_simulation", "call_observers", "step", "yield_moves", "add_move", "to_dict", "from_dict", "converged")
+    ym, step, add = (flat(prog, f_, mc, public_methods=True, keep=KEEP) for f_ in (ym, step, add))
     for sub in prog.subclasses(mc, strict=True):
         for m in ("yield_moves", "step", "add_move"):
             if m in sub.methods:
@@ -345,8 +348,25 @@ def run(prog: Program, L: Ledger) -> None:
         if len(sums) != 1:
             raise AnalysisError(f"add_move guard `{norm(t)[:80]}`: Σ over existing minimum counts not recognised")
         stxt = norm(sums[0])
-        ok_sum = "minimum_count" in stxt and "self.moves" in stxt
-        L.check(ok_sum, "M5", "add_move:sum", f"{add.module.relpath}:{g.lineno}", f"`{stxt[:80]}` is not the sum of the existing minimum counts", "", stxt[:120])
+        # Σ over ALL stored entries: a comprehension over self.moves (names, values or items) without a filter
+        ok_sum = False
+        sarg = ainl.inline(sums[0].args[0]) if sums[0].args else None
+        if isinstance(sarg, (ast.ListComp, ast.GeneratorExp)) and len(sarg.generators) == 1:
+            g0 = sarg.generators[0]
+            it0 = norm(ainl.inline(g0.iter))
+            if not g0.ifs and it0 in ("self.moves", "self.moves.keys()", "self.moves.values()", "self.moves.items()", "list(self.moves)"):
+                if it0 in ("self.moves", "self.moves.keys()", "list(self.moves)"):
+                    want_elt = (f"self.moves[{norm(g0.target)}].minimum_count",)
+                elif it0 == "self.moves.values()":
+                    want_elt = (f"{norm(g0.target)}.minimum_count",)
+                else:
+                    want_elt = (f"{norm(g0.target.elts[1])}.minimum_count", f"self.moves[{norm(g0.target.elts[0])}].minimum_count") if isinstance(g0.target, ast.Tuple) and len(g0.target.elts) == 2 else ()
+                ok_sum = norm(sarg.elt) in want_elt
+            stxt_show = f"{norm(sarg.elt)} for {norm(g0.target)} in {it0[:60]}" + (f" if {norm(g0.ifs[0])[:50]}" if g0.ifs else "")
+        else:
+            stxt_show = stxt
+        L.check(ok_sum, "M5", "add_move:sum", f"{add.module.relpath}:{g.lineno}", f"`{stxt_show[:120]}` is not the sum of the minimum counts of ALL stored moves",
+                "minimum counts committed by moves that are not due right now (interval > 1) are ignored: an over-committing move is accepted and a later step cannot place its forced moves", stxt[:120])
 
         class R(ast.NodeTransformer):
             def visit_Call(self, node):
